@@ -24,6 +24,8 @@ def variant(rng, r):
     v = copy.copy(r)
     v.attrs = dict(r.attrs)
     f = rng.choice(["addr", "addr", "addr", "name", "type", "target", "next", "prio", "weight", "port", "attrs", "bitmap", "ttl", "flush", "none"])
+    if r.type == 47 and rng.random() < 0.5:
+        f = "bitmap"
     if f == "addr":
         if r.addr is not None and len(r.addr) == 4:
             v.addr = rng.choice([b"\x00" * 10 + b"\xff\xff" + r.addr, b"\x00" * 12 + r.addr, None, bytes([r.addr[0] ^ 1]) + r.addr[1:]])
@@ -45,7 +47,11 @@ def variant(rng, r):
     elif f == "attrs":
         v.attrs[b"zz"] = None if v.attrs.get(b"zz", b"") is not None else b""
     elif f == "bitmap":
-        v.bitmap = r.bitmap + b"\x01" if len(r.bitmap) < 255 else b""
+        if 0 in r.bitmap[:-1]:
+            # same length, equal up to and including a zero octet, different after it
+            v.bitmap = r.bitmap[:-1] + bytes([r.bitmap[-1] ^ 0x40])
+        else:
+            v.bitmap = r.bitmap + b"\x01" if len(r.bitmap) < 255 else b""
     elif f == "ttl":
         v.ttl = (r.ttl + 1) % 2 ** 32
     elif f == "flush":
@@ -64,6 +70,8 @@ def rand_value_op(rng, v, kind):
             if rng.random() < 0.3:
                 a4 = bytes(rng.randrange(256) for _ in range(4))
                 r.addr = rng.choice([a4, b"\x00" * 10 + b"\xff\xff" + a4])
+            if r.type == 47 and rng.random() < 0.6:
+                r.bitmap = rng.choice([bytes.fromhex("0000000040"), bytes.fromhex("0000800040"), bytes.fromhex("00ff"), bytes.fromhex("400000000008")])
         LAST["record"] = r
         return "SETREC %s %s" % (v, r.tok())
     if kind == "message":
